@@ -87,6 +87,18 @@ fn judge<'a, T: DiffableStr + ?Sized + 'a>(d: &'a TextDiff<'a, 'a, 'a, T>, old: 
             }
         }
     }
+    // the remapper is a lookup, not a cursor: asking again in reverse op order gives the same slices
+    for op in d.ops().iter().rev() {
+        let a: Vec<(ChangeTag, &[u8])> = r1.iter_slices(op).map(|(t, s)| (t, s.as_bytes())).collect();
+        let b: Vec<(ChangeTag, &[u8])> = r2.iter_slices(op).map(|(t, s)| (t, s.as_bytes())).collect();
+        let w: Vec<(ChangeTag, Vec<u8>)> = op
+            .iter_slices(old_tokens, new_tokens)
+            .map(|(tag, toks): (ChangeTag, &[&T])| (tag, toks.iter().flat_map(|t| t.as_bytes().iter().copied()).collect()))
+            .collect();
+        if a != b || a.len() != w.len() || a.iter().zip(w.iter()).any(|(x, y)| x.0 != y.0 || x.1 != &y.1[..]) {
+            return Err(format!("TextDiffRemapper::iter_slices({:?}) asked again in reverse op order gives {:?} / {:?}", op, a.iter().map(|(t, s)| (*t, escape_bytes(s))).collect::<Vec<_>>(), b.iter().map(|(t, s)| (*t, escape_bytes(s))).collect::<Vec<_>>()));
+        }
+    }
     if oc != ob {
         return Err(format!("non-Insert remapped slices concatenate to {:?}, old text is {:?}", escape_bytes(&oc), escape_bytes(ob)));
     }
